@@ -302,8 +302,10 @@ func runOneSimStream(c simStreamCase) (fails []monFail, info string) {
 		// let outstanding datagrams arrive
 		time.Sleep(500 * time.Millisecond)
 		mu.Lock()
+		gotD := append([][]byte(nil), srvDgrams...) // fail() takes mu itself: check on a copy
+		mu.Unlock()
 		seen := map[string]bool{}
-		for _, d := range srvDgrams {
+		for _, d := range gotD {
 			if !sentD[string(d)] {
 				fail("simstream/dgram-modified", fmt.Sprintf("received datagram %x was never sent", d))
 			}
@@ -312,7 +314,6 @@ func runOneSimStream(c simStreamCase) (fails []monFail, info string) {
 			}
 			seen[string(d)] = true
 		}
-		mu.Unlock()
 		conn.CloseWithError(0, "")
 		if srvConn != nil {
 			select {
@@ -403,7 +404,21 @@ func runSimStream(w *bufio.Writer, seed uint64, n int, args []string) {
 		if only >= 0 && i != only {
 			continue
 		}
+		// Real-time watchdog: a connection that spins at one virtual instant never lets the
+		// bubble advance; report it as a failure of "transfers complete" with this case as input.
+		done := make(chan struct{})
+		go func(c simStreamCase) {
+			select {
+			case <-done:
+			case <-time.After(45 * time.Second):
+				fmt.Fprintf(w, "CASE 1 %s\n", c.String())
+				fmt.Fprintf(w, "MONFAIL\tsimstream/hang\tscenario did not finish within 45 s of REAL time (livelock at one virtual instant or deadlock outside the bubble); remaining cases skipped\t%s\n", c.String())
+				w.Flush()
+				os.Exit(0)
+			}
+		}(c)
 		fails, info := runOneSimStream(c)
+		close(done)
 		dist["client="+c.Client]++
 		dist[fmt.Sprintf("faults=%d", len(c.Faults))]++
 		nt := 0
